@@ -9,24 +9,29 @@ open BiotiteModel BiotiteModel.C06 BiotiteModel.Proto
 
 def hexDigit (n : Nat) : Char := if n < 10 then Char.ofNat (48 + n) else Char.ofNat (87 + n)
 
+/-- strings travel as the hex digits of their UTF-8 bytes -/
 def encStr (s : Str) : String :=
   if s.isEmpty then "-" else
-  String.ofList (s.flatMap (fun c => [hexDigit (c.toNat / 16 % 16), hexDigit (c.toNat % 16)]))
+  String.ofList ((String.ofList s).toUTF8.toList.flatMap (fun b => [hexDigit (b.toNat / 16), hexDigit (b.toNat % 16)]))
 
 def hexVal (c : Char) : Option Nat :=
   if '0' ≤ c ∧ c ≤ '9' then some (c.toNat - 48)
   else if 'a' ≤ c ∧ c ≤ 'f' then some (c.toNat - 87) else none
 
-def decChars : List Char → Option Str
+def decBytes : List Char → Option (List UInt8)
   | [] => some []
   | a :: b :: rest => do
     let x ← hexVal a
     let y ← hexVal b
-    let r ← decChars rest
-    some (Char.ofNat (16 * x + y) :: r)
+    let r ← decBytes rest
+    some (UInt8.ofNat (16 * x + y) :: r)
   | _ => none
 
-def decStr (s : String) : Option Str := if s == "-" then some [] else decChars s.toList
+def decStr (s : String) : Option Str :=
+  if s == "-" then some [] else
+  match decBytes s.toList with
+  | some bs => (String.fromUTF8? (ByteArray.mk bs.toArray)).map String.toList
+  | none => none
 
 def encList (xs : List Str) : String := if xs.isEmpty then "_" else joinWith "," (xs.map encStr)
 def decList (s : String) : Option (List Str) := if s == "_" then some [] else (s.splitOn ",").mapM decStr
